@@ -1149,7 +1149,7 @@ def main():
             R.cls(sig)
             for key, what in fails:
                 R.fail(key, what, cs)
-            if not fails and nsample.get(sig[0], 0) < 1 and res.out and sig[2] not in ("died", "refused"):
+            if not fails and nsample.get(sig[0], 0) < 1 and res.out and sig[2] not in ("died", "refused") and "1e-11" in cs and "2" in cs and "o" in cs:
                 nsample[sig[0]] = 1
                 R.sample("%s -> %s" % (cs, " / ".join(" ".join(r) for r in rows_of(res.out))))
         del chunk[:]
